@@ -176,6 +176,10 @@ class LSym:
         if isinstance(v, MaskedXor) or isinstance(v, XorNode):
             raise Unsupported("xor value used arithmetically")
         raise Unsupported("cannot use %r as integer" % (v,))
+    def U(self, v, w):
+        """a Poly congruent to v modulo 2^w (does not force the canonical representative)"""
+        if isinstance(v, Slice) and v.a == 0 and (v.b is None or v.b >= w): return v.x
+        return self.P(v)
     def boolvar(self, c):
         r = self.eval_cond(c)
         if r is not None: return ONE if r else ZERO
@@ -310,12 +314,16 @@ class LSym:
             t = ctx.bits(pa, w - 1, w)
             hi = ctx.bits(pa, k, w)
             return hi + t.scale((1 << w) - (1 << (w - k)))
+        if op in ("add", "sub", "mul"):
+            # ring operations commute with reduction mod 2^w: use the unwrapped representative of lazily
+            # wrapped operands, so chains of wrapping_add/sub (Karatsuba) need no wrap digits at all
+            ua, ub = self.U(a, w), self.U(b, w)
+            if op == "add": return self.wrapv(ua + ub, w)
+            if op == "sub":
+                if ua.is_zero() and self.is_bool(ub): return ub.scale((1 << w) - 1)
+                return self.wrapv(ua - ub, w)
+            return self.wrapv(ua * ub, w)
         pa, pb = self.P(a), self.P(b)
-        if op == "add": return self.wrapv(pa + pb, w)
-        if op == "sub":
-            if pa.is_zero() and self.is_bool(pb): return pb.scale((1 << w) - 1)
-            return self.wrapv(pa - pb, w)
-        if op == "mul": return self.wrapv(pa * pb, w)
         if op in ("udiv", "urem"):
             if pb.is_const() and pb.cval() > 0 and (pb.cval() & (pb.cval() - 1)) == 0:
                 k = pb.cval().bit_length() - 1
